@@ -157,6 +157,33 @@ Proof.
   destruct l; [reflexivity|discriminate].
 Qed.
 
+(* the instantiated decoder, unfolded once (proved by conversion here so that later proofs rewrite
+   with it instead of unfolding through the generic definition) *)
+Lemma decode_after_sync_eq sync2 offset s :
+  decode_after_sync sync2 offset s =
+  (let mpeg_id := N.land (N.shiftr sync2 3) 1 in
+   let layer := N.land (N.shiftr sync2 1) 3 in
+   let protection_absent := N.land sync2 1 in
+   if negb (layer =? 0) then Err
+   else
+     let hlen := if negb (protection_absent =? 1) then 9 else 7 in
+     let '(profile, s) := rd 2 s in
+     let ot := u8 (profile + 1) in
+     let '(sfi, s) := rd 4 s in
+     let '(_, s) := rd 1 s in
+     let '(chan, s) := rd 3 s in
+     let '(_, s) := rd 4 s in
+     let '(flen, s) := rd 13 s in
+     let plen := u16 (u16 flen + 65536 - hlen) in
+     let '(bf, s) := rd 11 s in
+     let '(nrb, s) := rd 2 s in
+     if negb (nrb =? 0) then Err
+     else
+       let s := if negb (protection_absent =? 1) then snd (rd 16 s) else s in
+       if rerr s then Err
+       else Ok (mkAdts mpeg_id ot (u8 sfi) (u8 chan) hlen plen (u16 bf), offset)).
+Proof. reflexivity. Qed.
+
 Lemma decode_after_sync_tail h off T :
   adts_canonical h = true ->
   decode_after_sync 241 off (mkR (adts_tail_bits h ++ T) false) = Ok (h, off).
@@ -165,7 +192,7 @@ Proof.
   intros H.
   repeat (apply andb_prop in H; let H' := fresh "C" in destruct H as [H H']).
   apply N.eqb_eq in H. subst hid. apply N.eqb_eq in C5. subst hl.
-  unfold decode_after_sync, adts_tail_bits. cbn [h_id h_ot h_sfi h_chan h_hlen h_plen h_bf].
+  rewrite decode_after_sync_eq. unfold adts_tail_bits. cbn [h_id h_ot h_sfi h_chan h_hlen h_plen h_bf].
   change (N.land (N.shiftr 241 3) 1) with 0.
   change (N.land (N.shiftr 241 1) 3) with 0.
   change (N.land 241 1) with 1.
@@ -191,7 +218,7 @@ Lemma adts_sync_offset junk h rest :
   adts_canonical h = true ->
   decode_adts (junk ++ encode_adts h ++ rest) = Ok (h, Z.of_nat (length junk)).
 Proof.
-  intros Hl Hb Hn Hc. unfold decode_adts, rinit.
+  intros Hl Hb Hn Hc. unfold decode_adts, decode_adts_g, rinit.
   rewrite !unpack_app, unpack_encode_adts, adts_bits_split, <- !app_assoc.
   rewrite (sync_loop_junk ts_packet_size junk 0 0%Z 241); try assumption; try reflexivity; try discriminate.
   - cbn [rerr negb]. rewrite Z.add_0_l. now apply decode_after_sync_tail.
